@@ -2,7 +2,7 @@
    sumbool/sumor map to OCaml's; nat/N/positive stay Coq's inductives.  No Extract
    Constant / Extract Inductive directives of our own. *)
 From Coq Require Import ExtrOcamlBasic.
-From EB Require Import Base ListVec Diff Head Skip Tail Filter Sort PollLoop OVec OVecRun OVecDrain Obs ObsSpec ObsWaker Chain ObsConc AsyncLock AsyncGuard FullStack ChainPoll.
+From EB Require Import Base ListVec Diff Head Skip Tail Filter Sort PollLoop OVec OVecRun OVecDrain Obs ObsSpec ObsWaker Chain ObsConc AsyncLock AsyncGuard FullStack FullStackB ChainPoll.
 Extraction Language OCaml.
 Extraction "model.ml"
   Diff.dmap Diff.apply Diff.ok_in Diff.apply_all Diff.apply_all_ok Diff.spec_nth Diff.oob
@@ -21,5 +21,5 @@ Extraction "model.ml"
   AsyncGuard.a_init AsyncGuard.a_start AsyncGuard.a_poll AsyncGuard.a_drop_guard AsyncGuard.a_guard_set
   AsyncGuard.call_possible AsyncGuard.a_pad
   OVecRun.ginit OVecRun.gstep OVecDrain.c_gpoll OVecDrain.env_ops
-  FullStack.fs_init FullStack.fstep
+  FullStack.fs_init FullStack.fstep FullStackB.fsb_init FullStackB.fstep_b
   ChainPoll.gpoll ChainPoll.queue_inner.
